@@ -17,5 +17,6 @@ func init() {
 		Tune:    func(r *core.Rand, k *ChainKnobs) { c11Runtime(r, k, false) },
 		ArgGen:  c11ArgGen,
 		OwnRand: true,
+		Share:   3,
 	})
 }
